@@ -37,7 +37,8 @@ Definition drop_attrs (d : drops) (G : bgraph) : bgraph :=
 
 Definition no_drops : drops := Drops false false false false false false false false.
 
-(** one step of an edited round trip: export, delete, import; both graphs' import results are observed *)
+(** one step of an edited round trip: export, delete, import; the edited graph (every node, arc, attribute) and the result
+    of its import are observed *)
 Definition run_drop (H : net) (fl : bflags) (d : drops) (ifl : iflags) : tok :=
   let G := drop_attrs d (hypergraph_to_bipartite fl H) in
   L [tbgraph G; tres tnet_plain (bipartite_to_hypergraph ifl G)].
@@ -77,3 +78,13 @@ Definition run_sdrop (H : net) (include_mol : bool) (d : sdrops) (mol_attr : boo
 
 Definition run_sdrops (H : net) (vs : list (bool * sdrops * bool * string)) : tok :=
   L (tnet_plain H :: ((λ v, run_sdrop H v.1.1.1 v.1.1.2 v.1.2 v.2) <$> vs) ++ [tnet_plain H]).
+
+(** * parse_rxns / add_rxn_from_str on a network that already holds reactions (every other parse of the correspondence starts
+      from the empty network): generated ids continue the per-rule counters, a line that raises leaves the lines before it,
+      an explicit rule / the suffix / the default rule are chosen as in [parse_item]. *)
+Definition run_parse_into (H : net) (batches : list (list (string * option string) * string * bool * bool)) : tok :=
+  L (tnet_plain H ::
+     (foldl (λ (acc : net * list tok) b,
+               let r := parse_items acc.1 b.1.1.1 b.1.1.2 b.1.2 b.2 in
+               (r.1, (acc.2 ++ [L [match r.2 with None => I 0 | Some e => tcerr e end; tnet_plain r.1]])%list))
+            (H, []) batches).2).
